@@ -169,14 +169,24 @@ def da_reads(tree):
 
 
 def da_writes_column(tree):
-    """does UxDataArray.to_geodataframe assign a column into the frame it got from the grid"""
+    """(does UxDataArray.to_geodataframe assign a column into a frame named gdf,
+        is that frame a copy of the one received from the grid)"""
     fn = find_func(tree, "to_geodataframe", cls="UxDataArray")
+    writes, copies = 0, 0
     for node in ast.walk(fn):
         if isinstance(node, ast.Assign):
             for t in node.targets:
                 if isinstance(t, ast.Subscript) and isinstance(t.value, ast.Name) and t.value.id == "gdf":
-                    return 1
-    return 0
+                    writes = 1
+                if isinstance(t, ast.Name) and t.id == "gdf":
+                    v = node.value
+                    is_copy = isinstance(v, ast.Call) and isinstance(v.func, ast.Attribute) and v.func.attr in ("copy", "deepcopy") \
+                        and (any(isinstance(a, ast.Name) and a.id == "gdf" for a in v.args)
+                             or (isinstance(v.func.value, ast.Name) and v.func.value.id == "gdf"))
+                    if not is_copy:
+                        raise Broken("UxDataArray.to_geodataframe: gdf rebound to %s" % ast.dump(v)[:80])
+                    copies = 1
+    return writes, copies
 
 
 def zl(keys):
@@ -205,7 +215,9 @@ def main():
             lines.append("Definition c15_%s_read_tables : list Z := %s." % (short, zl(rd.get(short, []))))
             lines.append("Definition c15_%s_returns_copy : bool := %s." % (short, "true" if ret == 1 else "false"))
             lines.append("")
-        lines.append("Definition c15_da_gdf_writes_column : bool := %s." % ("true" if da_writes_column(da) else "false"))
+        w, cp = da_writes_column(da)
+        lines.append("Definition c15_da_gdf_writes_column : bool := %s." % ("true" if w else "false"))
+        lines.append("Definition c15_da_gdf_copies : bool := %s." % ("true" if cp else "false"))
         lines.append("")
     except (Broken, SyntaxError, OSError) as ex:
         sys.stderr.write("tie broken: %s\n" % ex)
